@@ -258,10 +258,17 @@ def assemble(repo, unit):
             for k, l in enumerate(r['text'].rstrip('\n').split('\n')):
                 out_lines.append(ind + l if l else l)
                 origins.append(('src', r['file'], r['linemap'][k], r['exact'][k]))
-            fns.append(dict(name=f['name'], impl=f.get('impl'), file=r['file'], src_line=r['src_line'],
+            key = f['name']
+            if any(x['key'] == key for x in fns):
+                key = f"{f.get('impl') or f['file']}::{f['name']}"
+            fns.append(dict(name=f['name'], key=key, impl=f.get('impl'), file=r['file'], src_line=r['src_line'],
                             first=first, last=len(out_lines), body_sha=r['body_sha'], log=r['log'],
                             ensures=[oid for oid, _ in f.get('ensures', [])],
                             requires=[oid for oid, _ in f.get('requires', [])],
                             loops=sorted(n for n, lp in f['loops'].items() if lp.get('clauses', '').strip())))
+            # loop obligation tags carry the fn name; requalify them on collision
+            if key != f['name']:
+                for k2 in range(first - 1, len(out_lines)):
+                    out_lines[k2] = out_lines[k2].replace(f"//@OBL loop {f['name']}.loop", f"//@OBL loop {key}.loop")
             log += [f"{f['name']}: {x}" for x in r['log']]
     return dict(text='\n'.join(out_lines) + '\n', origins=origins, fns=fns, log=log)
